@@ -146,6 +146,8 @@ def worker_main(argv):
     'events': 0, 'error': None, 'missing_anchors': [],
   }
   t0 = boot.REAL_MONO()
+  if os.environ.get('VERIF_LINES', '1') != '0':
+    boot.LINES.start()
   try:
     check.setup(env, a.tier)
     out['missing_anchors'] = boot.REACH.watch(check.ANCHORS)
@@ -218,6 +220,7 @@ def worker_main(argv):
     import traceback
     out['error'] = '%s: %s\n%s' % (type(e).__name__, e, traceback.format_exc()[-3000:])
   out['anchors'] = dict(boot.REACH.counts)
+  out['lines'] = boot.LINES.dump()
   out['wall'] = boot.REAL_MONO() - t0
   with open(a.out, 'w') as f:
     json.dump(out, f)
@@ -340,6 +343,7 @@ def runner_main(argv):
   ev = 0
   obligations = 0
   sigs, classes, extra, anchors = {}, {}, {}, {}
+  lines = {}
   violations, samples = [], []
   events = 0
   cut = False
@@ -363,6 +367,8 @@ def runner_main(argv):
       extra[k] = extra.get(k, 0) + v
     for k, v in r['anchors'].items():
       anchors[k] = anchors.get(k, 0) + v
+    for k, v in r.get('lines', {}).items():
+      lines.setdefault(k, set()).update(v)
     violations.extend(r['violations'])
     for s in r['samples']:
       if len(samples) < 4:
@@ -440,6 +446,11 @@ def runner_main(argv):
       'cut_short_by_wall_budget': cut,
       'planned_cases': n,
     }
+    cov['source_lines_reached'] = line_report(lines, check['anchors'])
+    if os.environ.get('VERIF_LINES_DUMP'):      # raw per-file sets for tools/linecov.py (union over checks)
+      os.makedirs(os.environ['VERIF_LINES_DUMP'], exist_ok=True)
+      with open(os.path.join(os.environ['VERIF_LINES_DUMP'], '%s-%s.json' % (pid, tier)), 'w') as f:
+        json.dump({k: sorted(v) for k, v in lines.items()}, f)
     if check['exhaustive'].get(tier) and not cut:
       cov['exhaustive'] = True
     evd = {
@@ -474,6 +485,49 @@ def runner_main(argv):
   return 0
 
 
+def _ranges(nums):
+  out, run = [], []
+  for x in sorted(nums):
+    if run and x == run[-1] + 1:
+      run.append(x)
+    else:
+      if run:
+        out.append(run)
+      run = [x]
+  if run:
+    out.append(run)
+  return ['%d' % r[0] if len(r) == 1 else '%d-%d' % (r[0], r[-1]) for r in out]
+
+
+def line_report(lines, anchors):
+  """Measured by sys.monitoring LINE events in the workers: which source lines of the code under
+  test this run executed - per file that holds one of the check's anchor functions, and in total."""
+  from . import boot
+  root = os.path.realpath(boot.repo_root())
+  anchor_files = sorted({a.split(':')[0].replace('.', '/') + '.py' for a in anchors})
+  rep = {'files_with_anchor_functions': {}, 'method': 'sys.monitoring LINE events (one-shot per location) in every worker, merged'}
+  tot_exec = tot_hit = 0
+  for dirpath, _d, files in os.walk(os.path.join(root, 'scales')):
+    for fn in files:
+      if not fn.endswith('.py'):
+        continue
+      full = os.path.join(dirpath, fn)
+      rel = os.path.relpath(full, root)
+      try:
+        ex = boot.executable_lines(full)
+      except Exception:
+        continue
+      hit = set(lines.get(rel, ())) & ex
+      tot_exec += len(ex)
+      tot_hit += len(hit)
+      if rel in anchor_files:
+        rep['files_with_anchor_functions'][rel] = {
+          'executable_lines': len(ex), 'reached': len(hit),
+          'not_reached': _ranges(ex - hit)}
+  rep['all_of_scales'] = {'executable_lines': tot_exec, 'reached': tot_hit}
+  return rep
+
+
 def load_check_meta(pid):
   """Static metadata of a check (no scales import in the runner process)."""
   c = load_check(pid)
@@ -482,6 +536,7 @@ def load_check_meta(pid):
     'max_workers': c.MAX_WORKERS,
     'wall': {'quick': c.QUICK_WALL, 'thorough': c.THOROUGH_WALL},
     'required_anchors': list(c.REQUIRED_ANCHORS),
+    'anchors': list(c.ANCHORS),
     'required_classes': list(c.REQUIRED_CLASSES),
     'min_distinct': c.MIN_DISTINCT,
     'rule': c.RULE,
